@@ -56,6 +56,11 @@ type helper struct {
 	name    string
 	params  []*Type
 	results []*Type
+	// recovers: the function (or one it calls) recovers a panic of its own.
+	// Such a function is never called from a function literal: a literal may
+	// run as a deferred call while another panic unwinds, and the GnoVM then
+	// abandons the literal (known finding `nested-recover-abandons-defer`).
+	recovers bool
 }
 
 type loopCtx struct {
@@ -80,6 +85,8 @@ type G struct {
 	recs     []recInfo
 	// boundedStr: see strExpr
 	boundedStr bool
+	// calledRecoverer: the function being generated calls a recovering helper
+	calledRecoverer bool
 }
 
 func (g *G) fresh(pfx string) string { g.nv++; return fmt.Sprintf("%s%d", pfx, g.nv) }
@@ -1531,10 +1538,20 @@ func (g *G) argFor(t *Type) *Expr {
 }
 
 func (g *G) callStmt() []*Stmt {
-	if len(g.helpers) == 0 {
+	var cands []*helper
+	for _, h := range g.helpers {
+		if g.inLit > 0 && h.recovers {
+			continue
+		}
+		cands = append(cands, h)
+	}
+	if len(cands) == 0 {
 		return g.printStmt()
 	}
-	h := kit.Pick(g.r, g.helpers)
+	h := kit.Pick(g.r, cands)
+	if h.recovers {
+		g.calledRecoverer = true
+	}
 	var args []*Expr
 	for _, pt := range h.params {
 		args = append(args, g.argFor(pt))
@@ -1885,6 +1902,7 @@ func (g *G) genHelper(recoverer bool) {
 	g.p.Funcs = append(g.p.Funcs, f)
 	g.scopes = nil
 	g.loops = nil
+	g.calledRecoverer = false
 	g.results, g.named = f.Results, f.Named
 	g.push()
 	for _, p := range f.Params {
@@ -1951,7 +1969,7 @@ func (g *G) genHelper(recoverer bool) {
 	body = append(body, tail...)
 	g.risky = saveRisky
 	f.Body = body
-	h := &helper{idx: idx, name: name}
+	h := &helper{idx: idx, name: name, recovers: recoverer || g.calledRecoverer}
 	for _, p := range f.Params {
 		h.params = append(h.params, p.T)
 	}
